@@ -1,6 +1,7 @@
 """C04 — the inferred schema accepts the JSON encoding of every value of the type."""
 from .. import gen_types as gt
 
+HARNESS_FILES = gt.harness_files
 ID = "C04"
 N_QUICK = 3000
 N_THOROUGH = 40000
